@@ -122,7 +122,14 @@ def run(rep, tier):
                       - {front.repo("csg/src/libcsg/csgapplication.cc")})
         allu = [u for u in allu if "/tests/" not in u]
         who_units = allu
-    by_unit = front.export(units + who_units)
+    by_unit = front.export(units + who_units, skip_unavailable=(tier == "thorough"))
+    skipped = list(front.LAST_SKIPPED)
+    if any(u in [s_[0] for s_ in skipped] for u in units + [front.repo(x) for x in WORKER_UNITS]):
+        raise AnalysisBroken("a unit of the core analysis does not parse: %s" % skipped)
+    who_units = [u for u in who_units if u in by_unit]
+    if skipped:
+        rep.assumptions.append("units that need an optional package not installed here (not compiled by this tree's build either) were left out of the who-may-call sweep: %s" % (
+            ", ".join("%s (%s)" % (os.path.relpath(u, front.REPO), h) for u, h in skipped)))
     F = Facts({u: by_unit[u] for u in units})
     rep.units = units + who_units
 
@@ -247,8 +254,22 @@ def run(rep, tier):
                 cls = f.j.get("class") or ""
                 n_sites += 1
                 if not (cls == C + "CsgApplication" or f.qname.startswith(APP)):
-                    rep.violation("R5.6", "shared-member|%s|%s" % (f.qname, n["fname"]),
-                                  "%s touches the shared member %s of CsgApplication outside the application's own lock protocol" % (f.qname, n["fname"]), f.loc(n))
+                    # the members are shared between threads only in applications that run workers: an application class without a DoThreaded()
+                    # override returning true evaluates every frame on the main thread (CsgApplication::DoThreaded() is false)
+                    dts = [g_ for g_ in allF.funcs if g_.qname == cls + "::DoThreaded"]
+                    threaded = True
+                    if cls and not cls.endswith("Worker") and "Worker::" not in f.qname:
+                        if not dts:
+                            threaded = False
+                        else:
+                            rv = [unwrap(x["value"]) for x in dts[0].walk() if x.get("k") == "return" and x.get("value") is not None]
+                            threaded = not (rv and all(v_.get("k") == "bool" and not v_.get("v") for v_ in rv))
+                    if threaded:
+                        rep.violation("R5.6", "shared-member|%s|%s" % (f.qname, n["fname"]),
+                                      "%s touches the shared member %s of CsgApplication outside the application's own lock protocol" % (f.qname, n["fname"]), f.loc(n))
+                    else:
+                        rep.holds("R5.6", "shared-member|%s|%s" % (f.qname, n["fname"]), "%s is not a threaded application (no DoThreaded() override returning true): "
+                                  "the member is only used from the main thread" % cls.split("::")[-1], f.loc(n))
     rep.holds("R5.6", "sites", "%d call sites / member accesses inspected over %d units" % (n_sites, len(by_unit)), sample=True)
     rep.floor("R5.6", n_sites, 20, "who-may-call sites")
     # ForkWorker overriders hand out a fresh worker object
